@@ -41,6 +41,13 @@ CHECKS["C18"] = dict(
     ref="4/C18",
 )
 
+CHECKS["C03"] = dict(
+    technique="sync/async differential oracle on real executions + deterministic coroutine scheduler enumerating interleavings of concurrent render_async calls at drop/loader await points",
+    text="Exploration: ~2e3 (quick) sync/async pairs over corpus templates (partials moved into sub-directories), grammar-generated programs and inheritance/macro/translate fixtures with lazily awaited drops and 8 loader kinds, compared on output | (error class, template name, offset), plus get_template/analyze twins; ~3e4 explored schedules of 2-3 concurrent renders sharing one Template (exhaustive when <= 2000 interleavings) each compared with the solo result.",
+    note="Trusted: the hand-driven scheduler (liquid2 awaits only harness-supplied awaitables with dict loaders); file-system loaders run under asyncio with uncontrolled executor interleavings.",
+    ref="4/C03, 2.4",
+)
+
 NOT_YET = {}
 
 def main():
